@@ -93,7 +93,19 @@ func (w *world) exec(line string) string {
 	t := strings.Fields(line)
 	switch t[0] {
 	case "data":
-		return dump(w.tmpl.Data(hx.Unhex(t[1]), model.LabelSet{"g": "1"}, nil, "first_notification", parseAlerts(t[3])...))
+		d := w.tmpl.Data(hx.Unhex(t[1]), model.LabelSet{"g": "1"}, nil, "first_notification", parseAlerts(t[3])...)
+		// an integration renders several templates on the same data (subject, then body, then URL …): rendering must
+		// not change what the next template sees
+		for _, text := range []string{
+			`{{ template "__subject" . }}`,
+			`{{ (.CommonLabels.Remove (stringSlice "a" "b")).Names }} {{ (.CommonAnnotations.Remove (stringSlice "a")).Values }}`,
+			`{{ (.GroupLabels.Remove (stringSlice "g")).SortedPairs }} {{ range .Alerts.Firing }}{{ (.Labels.Remove (stringSlice "a" "c")).Names }}{{ end }}{{ range .Alerts.Resolved }}{{ (.Annotations.Remove (stringSlice "b")).Names }}{{ end }}`,
+		} {
+			if _, err := w.tmpl.ExecuteTextString(text, d); err != nil {
+				return "error:" + hx.Hex(err.Error())
+			}
+		}
+		return dump(d)
 	case "webhook":
 		mx, _ := strconv.ParseUint(t[1], 10, 64)
 		u := amcommoncfg.SecretTemplateURL(w.srv.URL)
